@@ -89,6 +89,13 @@ structure Rel (items : List Item) (P : Pulse) : Prop where
   sample : ∀ c pl, P.chans.lookup c = some pl → ∀ t, 0 ≤ t → t < P.dur →
     Loop.sampleList (nodesOf items) c t = PL.at pl t
   windows : (itemsWindows items 0).Perm P.windows
+  chans : ∀ cs ∈ Loop.leafChannelsList (nodesOf items), ∀ x, x ∈ cs ↔ x ∈ P.chanNames
+
+theorem leafChannelsList_append (a b : List Loop) :
+    Loop.leafChannelsList (a ++ b) = Loop.leafChannelsList a ++ Loop.leafChannelsList b := by
+  induction a with
+  | nil => simp [Loop.leafChannelsList]
+  | cons x xs ih => simp [Loop.leafChannelsList, ih]
 
 theorem Rel.nil : Rel [] Pulse.empty where
   blocks := Blocks.nil
@@ -98,6 +105,7 @@ theorem Rel.nil : Rel [] Pulse.empty where
   plPos := by intro c pl h; simp [Pulse.empty] at h
   sample := by intro c pl h; simp [Pulse.empty] at h
   windows := by simp [itemsWindows, Pulse.empty]
+  chans := by intro cs h; simp [nodesOf, Loop.leafChannelsList] at h
 
 theorem Rel.items_nil {items : List Item} {P : Pulse} (h : Rel items P) (he : P.chans = []) : items = [] :=
   h.blocks.eq_nil (h.empty.mpr he)
@@ -178,7 +186,7 @@ theorem Rel.append {a b : List Item} {Pa Pb P : Pulse} (ha : Rel a Pa) (hb : Rel
           apply lookup_some_of_mem_keys
           simpa [Pulse.chanNames] using this
         have hnn := allPosList_nonneg hpos
-        refine ⟨ha.blocks.append hb.blocks, ?_, ?_, ?_, ?_, ?_, ?_⟩
+        refine ⟨ha.blocks.append hb.blocks, ?_, ?_, ?_, ?_, ?_, ?_, ?_⟩
         · simp only [nodesOf_append, List.append_eq_nil_iff, List.map_eq_nil_iff]
           constructor
           · intro h; exact absurd (ha.empty.mp h.1) hne_a
@@ -223,6 +231,21 @@ theorem Rel.append {a b : List Item} {Pa Pb P : Pulse} (ha : Rel a Pa) (hb : Rel
         · rw [itemsWindows_append, itemsWindows_shift b, ha.dur]
           simp only [zero_add]
           exact List.Perm.append ha.windows (List.Perm.map _ hb.windows)
+        · intro cs hcs x
+          have hnames : ∀ y, y ∈ Pulse.chanNames
+              { dur := Pa.dur + Pb.dur,
+                chans := Pa.chans.map (fun (x : Chan × PL) => (x.1, x.2 ++ ((Pb.chans.lookup x.1).getD []))),
+                windows := Pa.windows ++ Pb.windows.map (shiftW Pa.dur) } ↔ y ∈ Pa.chanNames := by
+            intro y; simp [Pulse.chanNames, List.map_map, Function.comp_def]
+          rw [hnames]
+          rw [nodesOf_append, leafChannelsList_append, List.mem_append] at hcs
+          rcases hcs with hcs | hcs
+          · exact ha.chans cs hcs x
+          · rw [hb.chans cs hcs x]
+            simp only [sameSet, Bool.and_eq_true, List.all_eq_true] at h3
+            constructor
+            · intro hx; simpa using h3.2 x hx
+            · intro hx; simpa using h3.1 x hx
       · simp [h3] at hP
 
 theorem Rel.guard {its : List Item} {p : Pulse} (h : Rel its p) (ms : List Window) :
@@ -238,7 +261,7 @@ theorem Rel.guard {its : List Item} {p : Pulse} (h : Rel its p) (ms : List Windo
       intro h0; subst h0
       have := h.empty.mp (by simp [nodesOf])
       simp [Pulse.isEmpty, this] at he
-    refine ⟨guardRun_blocks h.blocks ms, ?_, ?_, ?_, ?_, ?_, ?_⟩
+    refine ⟨guardRun_blocks h.blocks ms, ?_, ?_, ?_, ?_, ?_, ?_, ?_⟩
     · rw [nodesOf_guardRun]; exact h.empty
     · rw [nodesOf_guardRun]; exact h.dur
     · exact h.plDur
@@ -249,6 +272,8 @@ theorem Rel.guard {its : List Item} {p : Pulse} (h : Rel its p) (ms : List Windo
     · rw [itemsWindows_guardRun h.blocks]
       simp only [hne, if_false, map_shiftW_zero]
       exact List.Perm.append_left _ h.windows
+    · rw [nodesOf_guardRun]
+      exact h.chans
 
 theorem repeatWindows_perm {ws ws' : List Window} (h : ws.Perm ws') (n : Nat) (d : Rat) :
     (repeatWindows ws n d).Perm (repeatWindows ws' n d) := by
@@ -283,7 +308,7 @@ theorem Rel.rep {its : List Item} {b : Pulse} (h : Rel its b) (hpos : Loop.allPo
         = (b.chans.lookup c).map (fun pl => PL.replicate n pl) := by
       intro c
       exact lookup_map_snd b.chans (fun _ pl => PL.replicate n pl) c
-    refine ⟨Blocks.meas ms _ Blocks.nil, ?_, ?_, ?_, ?_, ?_, ?_⟩
+    refine ⟨Blocks.meas ms _ Blocks.nil, ?_, ?_, ?_, ?_, ?_, ?_, ?_⟩
     · simp only [nodesOf]
       constructor
       · intro h0; simp at h0
@@ -338,5 +363,17 @@ theorem Rel.rep {its : List Item} {b : Pulse} (h : Rel its b) (hpos : Loop.allPo
       rw [bodyDuration_none, h.dur]
       apply repeatWindows_perm
       exact List.Perm.trans (measW_windowsList_perm its 0) h.windows
+    · intro cs hcs x
+      have hnames : ∀ y, y ∈ Pulse.chanNames
+          { dur := b.dur * n, chans := b.chans.map (fun (x : Chan × PL) => (x.1, PL.replicate n x.2)),
+            windows := ms ++ repeatWindows b.windows n b.dur } ↔ y ∈ b.chanNames := by
+        intro y; simp [Pulse.chanNames, List.map_map, Function.comp_def]
+      rw [hnames]
+      obtain ⟨c0, cs0, hc0⟩ := List.exists_cons_of_ne_nil hne
+      simp only [nodesOf, Loop.leafChannelsList, List.append_nil] at hcs
+      rw [hc0] at hcs
+      simp only [Loop.leafChannels] at hcs
+      rw [← hc0] at hcs
+      exact h.chans cs hcs x
 
 end QP.PT
